@@ -550,9 +550,19 @@ fn check_input(prop: &str, s: &dyn Subject, sd: &SubjectDef, p: &Prepared, input
     }
     if !panicked {
         match prop {
-            "C01" | "C02" | "C03" | "C11" => {
+            "C01" | "C02" | "C03" | "C11" | "C10" => {
                 let kind_of = |leaf: usize| p.reflex.pats[leaf].variant.unwrap_or(usize::MAX);
-                let (jf, st) = judge(&p.reflex, &p.prio, input, &obs.items, obs.ended, &kind_of);
+                let (mut jf, st) = judge(&p.reflex, &p.prio, input, &obs.items, obs.ended, &kind_of);
+                // on the subpattern / literal families agreement of the compiled lexer with the pattern language (the
+                // inlined patterns, the literal under the case-insensitive flag) is the clause of C11 / C10 itself
+                if prop == "C11" || prop == "C10" {
+                    let own: &'static str = if prop == "C11" { "C11" } else { "C10" };
+                    for x in jf.iter_mut() {
+                        if x.property == "C01" || x.property == "C02" {
+                            x.property = own;
+                        }
+                    }
+                }
                 f.extend(jf);
                 let skips = if sd.skip_log { Some(&obs.skips[..]) } else { None };
                 f.extend(tiling(input.len(), &obs.items, skips, obs.ended, obs.none_again));
@@ -766,6 +776,7 @@ fn families_for(prop: &str) -> &'static [&'static str] {
         "C07" => &["core", "callbacks"],
         "C20" => &["core", "callbacks", "stress", "stress-cb"],
         "C11" => &["sub"],
+        "C10" => &["lit"],
         "C01" | "C12" | "C06" | "C05" => &["core", "sub"],
         _ => &["core"],
     }
@@ -781,6 +792,7 @@ fn rule_for(prop: &str) -> String {
         "C05" => "oracle = no panic / no sanitizer report, exactly sized heap inputs; non-trivial = distinct (definition,input) whose last item ends exactly at the end of the allocation",
         "C07" => "every split point of every input: partial items are a leading run of the one-shot items of the input and of 6 alternative continuations, empty span at None, rest re-lexes to the remaining items, chunked history reproduces the stream (same build); on the callbacks family (decisions are functions of the matched text): committed items with payloads / error codes and the callback invocations are a leading run of the one-shot ones, the rest re-lexes, chunked history for bump-free definitions (a bumping callback near the split sees a cut remainder: nothing from its match on is compared); non-trivial = splits strictly inside an item/skip or where the partial lexer stopped before the split",
         "C11" => "subpattern family on compiled lexers: definitions with (?&name) references (nested, str and byte-string subpatterns, str and byte mode); oracle = reference lexer built from the AST-inlined patterns; non-trivial = attempts with >= 2 matching patterns / several match ends",
+        "C10" => "literal family on compiled lexers: #[token] literals over metacharacters, cased non-ASCII chars (incl. case pairs whose encodings differ in one bit other than 0x20, in two bytes, in length) and arbitrary bytes, with / without ignore(case), case-insensitive regexes and skips; inputs additionally hold the case variants of every literal; oracle = reference lexer (exact bytes / regex crate under the case-insensitive flag); non-trivial = attempts with >= 2 matching patterns / several match ends",
         "C12" => "str-mode definitions compiled twice (utf8 default / utf8 = false) in one module, same valid UTF-8 input to both; oracle: Ok tokens with spans equal and the sets of bytes covered by errors equal (twin against twin); non-trivial = distinct (definition,input) with a multi-byte char inside or next to an error",
         "C13" => "callbacks family: every pattern carries a callback (return type from the whole documented table, decision = pure function of salt and matched text, bump of 0-2 chars, 6 attachment forms (function path or inline closure, positional or callback =, closure bodies that start with a parenthesised group or are a block), optional error callback, custom error type with From); oracle: model driven by the callback-free twin T0 (one unit variant per leaf) restarted after every item at the position the model computes, decisions applied per the documented table: items, spans, payloads, error codes, callback log (exactly one entry per winning match with span/slice of the match, bumped bytes) and error-callback log must be equal; plus the T1 twin where always-Skip callbacks are replaced by skip patterns; non-trivial = distinct (definition,input) with a non-Emit decision, a bump > 0, or a Skip followed by a restart",
         "C20" => "oracle on the read trace (hook): offsets non-decreasing per attempt, reads <= 4*(examined+1)+16, first read at the attempt start; non-trivial = attempts examining >= 16 bytes",
@@ -1168,6 +1180,7 @@ fn start_watchdog(prop: &str, set: &SubjectSet, args: &Args, cfg: &BuildCfg) {
             let owned: Option<&'static str> = match prop.as_str() {
                 "C03" => Some("C03"),
                 "C11" if defs[idx].family != "core" => Some("C11"),
+                "C10" if defs[idx].family != "core" => Some("C10"),
                 "C12" if defs[idx].family != "core" => Some("C12"),
                 "C13" if defs[idx].family != "core" => Some("C13"),
                 "C20" if defs[idx].family != "core" => Some("C20"),
